@@ -239,3 +239,59 @@ theorem precalc_spec (groups : List Str) (desc anc : Str → List Str) (ic : Str
   · rcases h with ⟨h1, _⟩ | ⟨h1, _⟩ <;> omega
 
 end Hpv.Resnik
+
+namespace Hpv.Resnik
+open Hpv.Sim
+
+/-- every stored value is positive -/
+def AllPos (s : State) : Prop := ∀ o i v, (o, i, v) ∈ items s → 0 < v
+
+theorem allPos_set (s s' : State) (a b : Str) (w : Int) (hwf : WF s) (hpos : AllPos s) (hw : 0 < w)
+    (h : Sim.set s a b w = .ok s') : AllPos s' := by
+  have hwf' := wf_set s s' a b w hwf h
+  intro o i v hv
+  obtain ⟨hs, hg, _⟩ := (items_spec s' hwf').2 o i v hv
+  rw [get_set s s' a b o i w h] at hg
+  by_cases hn : norm a b = norm o i
+  · simp only [hn, if_true] at hg; omega
+  · simp only [hn, if_false] at hg
+    have hst : Stored s' o i := by
+      obtain ⟨inner, h1, h2⟩ := (mem_items_iff s' hwf' o i v).mp hv
+      exact ⟨inner, v, h1, h2⟩
+    rcases (stored_set s s' a b w h o i).mp hst with heq | hold
+    · exact absurd (by rw [← heq, norm_of_sle o i hs]) hn
+    · obtain ⟨inner, v', h1, h2⟩ := hold
+      have hmem := (mem_items_iff s hwf o i v').mpr ⟨inner, h1, h2⟩
+      obtain ⟨_, hg', _⟩ := (items_spec s hwf).2 o i v' hmem
+      have := hpos o i v' hmem
+      omega
+
+theorem stepPair_inv (anc : Str → List Str) (ic : Str → Int) (s : State) (p : Str × Str) (hwf : WF s) (hpos : AllPos s) :
+    WF (stepPair anc ic s p) ∧ AllPos (stepPair anc ic s p) := by
+  unfold stepPair
+  simp only
+  by_cases hm : mica anc ic p.1 p.2 > 0
+  · simp only [hm, if_true]
+    split
+    · rename_i s' hset
+      refine ⟨wf_set _ _ _ _ _ hwf hset, allPos_set _ _ _ _ _ hwf hpos ?_ hset⟩
+      omega
+    · exact ⟨hwf, hpos⟩
+  · simp only [hm, if_false]; exact ⟨hwf, hpos⟩
+
+/-- **Only pairs with positive similarity are stored.** -/
+theorem precalc_stored_positive (groups : List Str) (desc anc : Str → List Str) (ic : Str → Int) :
+    WF (precalc groups desc anc ic) ∧ AllPos (precalc groups desc anc ic) := by
+  unfold precalc
+  suffices h : ∀ (P : List (Str × Str)) (s : State), WF s → AllPos s →
+      WF (P.foldl (stepPair anc ic) s) ∧ AllPos (P.foldl (stepPair anc ic) s) from
+    h _ [] ⟨by simp, by intro p hp; cases hp⟩ (by intro o i v hv; simp [items] at hv)
+  intro P
+  induction P with
+  | nil => intro s h1 h2; exact ⟨h1, h2⟩
+  | cons p rest ih =>
+    intro s h1 h2
+    obtain ⟨h3, h4⟩ := stepPair_inv anc ic s p h1 h2
+    exact ih _ h3 h4
+
+end Hpv.Resnik
